@@ -30,14 +30,19 @@ CONSTANTS ClipFiles,   \* set of <<fr, te_p, te_q, tden, ch, N>> : files on whic
           SpecStep,    \* "requested": step attribute = hop_size (as found) | "realised": (nperseg - noverlap)/samplerate
           WinClamp,    \* FALSE: nperseg is clamped to the input length only inside scipy (as found) | TRUE: before it is advertised
           SeekClamp,   \* FALSE: seek(offset) fails beyond the end of file (as found) | TRUE: seek(min(offset, frames))
-          EmptyGuard   \* FALSE: create_range_dim reads coords[-1] of an empty range (as found) | TRUE: guarded
+          EmptyGuard,  \* FALSE: create_range_dim reads coords[-1] of an empty range (as found) | TRUE: guarded
+          Pres,        \* derived-twice cases: the source is first resampled to a rate of Pres, then the case's operation is applied to the SAME source
+          PreSpecSrcs, \* the sources of SpecSrcs on which the derived-twice spectrograms are enumerated (all of ResSrcs are)
+          AliasAttrs   \* FALSE: resample builds fresh attributes for the new time axis (the implementation) |
+                       \* TRUE: it writes step = 1/target into the live attrs of the source's time coordinate (seeded change C15-sb2)
 VARIABLES c, pc, m
 
 vars == <<c, pc, m>>
 
 Mk(kind, f, s, e, src, w, h, tg) ==
     [kind |-> kind, fr |-> f[1], te |-> <<f[2], f[3]>>, tden |-> f[4], ch |-> f[5], N |-> f[6],
-     s |-> s, e |-> e, src |-> src, w |-> w, h |-> h, target |-> tg]
+     s |-> s, e |-> e, src |-> src, w |-> w, h |-> h, target |-> tg, pre |-> 0]
+WithPre(k, p) == [k EXCEPT !.pre = p]
 SrF(f)     == (f[1] * f[2]) \div f[3]
 MaxTick(f) == ((f[6] + Pad) * f[4]) \div SrF(f) + 1
 SrcKind(f) == IF f[8] = 0 THEN "rec" ELSE "clip"
@@ -46,17 +51,25 @@ SrcKind(f) == IF f[8] = 0 THEN "rec" ELSE "clip"
 SrcN(k)   == IF k.src = "rec" THEN k.N ELSE LenNum(k) \div k.tden
 SrcOff(k) == IF k.src = "rec" THEN 0 ELSE OffNum(k) \div k.tden
 
+\* output samples of the preliminary resample(source, p)
+PreNum(k, p) == (SrcN(k) * p) \div Sr(k)
+
 m0 == [off |-> 0, len |-> 0, pos |-> 0, rows |-> <<>>, t0 |-> 0, d |-> <<>>, step |-> 0,
-       fd |-> <<>>, fstep |-> 0, np0 |-> 0, np |-> 0, nov |-> 0, num |-> 0, raised |-> ""]
+       fd |-> <<>>, fstep |-> 0, np0 |-> 0, np |-> 0, nov |-> 0, num |-> 0, raised |-> "",
+       sstep |-> <<1, 1>>,        \* the step the SOURCE array advertises, in samples (a rational <<p, q>>)
+       sobs |-> <<0, 0, 0>>]      \* re-observation of the source after the call(s): <<frames, p, q>>
 
 \* (quantifiers instead of  c \in RecCases \cup ClipCases ...: TLC enumerates them without building the big set)
 Init == /\ pc = "start" /\ m = m0
         /\ \/ \E f \in ClipFiles : c = Mk("rec", f, 0, 0, "rec", 0, 0, 0)
            \/ \E f \in ClipFiles : \E e \in 0..MaxTick(f) : \E s \in 0..e : c = Mk("clip", f, s, e, "clip", 0, 0, 0)
-           \/ \E f \in SpecSrcs : \E w \in 1..MaxW : \E h \in 1..w : c = Mk("spec", f, f[7], f[8], SrcKind(f), w, h, 0)
-           \/ \E f \in ResSrcs : \E tg \in Targets :
+           \/ \E f \in SpecSrcs : \E w \in 1..MaxW : \E h \in 1..w :
+                 \E p \in {0} \cup (IF f \in PreSpecSrcs THEN Pres ELSE {}) :
+                    LET k == Mk("spec", f, f[7], f[8], SrcKind(f), w, h, 0)
+                    IN  PreNum(k, p) <= MaxNum /\ c = WithPre(k, p)
+           \/ \E f \in ResSrcs : \E tg \in Targets : \E p \in {0} \cup Pres :
                  LET k == Mk("resamp", f, f[7], f[8], SrcKind(f), 0, 0, tg)
-                 IN  ImplNum(k, SrcN(k)) <= MaxNum /\ c = k
+                 IN  ImplNum(k, SrcN(k)) <= MaxNum /\ PreNum(k, p) <= MaxNum /\ c = WithPre(k, p)
 
 Stay == UNCHANGED c
 Iota(n) == [i \in 1..n |-> i - 1]
@@ -92,8 +105,16 @@ Axis      == /\ pc = "axis" /\ ~(m.len = 0 /\ ~EmptyGuard)
                 IN  m' = [m EXCEPT !.t0 = m.off, !.d = Iota(IF drop THEN cnt - 1 ELSE cnt), !.step = 1]
              /\ pc' = "done" /\ Stay
 
+(* ---- derived twice: resample(source, pre) first, its result set aside; the case's operation then runs on the same source.
+        The implementation does not touch its input; the AliasAttrs variant writes the new step into the source's attrs
+        (after scipy returned, i.e. not when the call raises) ---- *)
+Pre == /\ pc = "start" /\ c.kind \in {"resamp", "spec"}
+       /\ m' = [m EXCEPT !.sstep = IF AliasAttrs /\ c.pre > 0 /\ PreNum(c, c.pre) >= 1 /\ SrcN(c) >= 2
+                                   THEN <<Sr(c), c.pre>> ELSE m.sstep]
+       /\ pc' = "main" /\ Stay
+
 (* ---- resample(source, target) ---- *)
-ResArith == /\ pc = "start" /\ c.kind = "resamp"
+ResArith == /\ pc = "main" /\ c.kind = "resamp"
             /\ m' = [m EXCEPT !.num = ImplNum(c, SrcN(c)), !.t0 = SrcOff(c)]
             /\ pc' = "res" /\ Stay
 ResRaise == /\ pc = "res" /\ ~(m.num >= 1 /\ SrcN(c) >= 2)                \* scipy: num must be positive; t[1] of a 1-sample axis
@@ -102,11 +123,12 @@ ResRaise == /\ pc = "res" /\ ~(m.num >= 1 /\ SrcN(c) >= 2)                \* sci
 \* scipy: new_t = arange(num) * (t[1]-t[0]) * Nx/num + t[0]; unit 1/(sr*num*target): d_i = i*Nx*target, 1/target = sr*num
 ResAxis  == /\ pc = "res" /\ m.num >= 1 /\ SrcN(c) >= 2
             /\ m' = [m EXCEPT !.len = m.num, !.d = [i \in 1..m.num |-> (i - 1) * SrcN(c) * c.target],
-                              !.step = Sr(c) * m.num]
-            /\ pc' = "done" /\ Stay
+                              !.step = Sr(c) * m.num,
+                              !.sstep = IF AliasAttrs THEN <<Sr(c), c.target>> ELSE m.sstep]
+            /\ pc' = "reobs" /\ Stay
 
 (* ---- compute_spectrogram(source, w, h) ---- *)
-SpecArith == /\ pc = "start" /\ c.kind = "spec"
+SpecArith == /\ pc = "main" /\ c.kind = "spec"
              /\ m' = [m EXCEPT !.np0 = ImplNp0(c), !.np = ImplNp(c, SrcN(c)), !.nov = ImplNov(c), !.t0 = SrcOff(c)]
              /\ pc' = "triage" /\ Stay
 SpecRaise == /\ pc = "triage" /\ ImplSpecRaises(c, SrcN(c)) = TRUE   \* (= TRUE: keeps TLC from splitting the action)
@@ -122,10 +144,15 @@ SpecFrames == /\ pc = "triage" /\ ~ImplSpecRaises(c, SrcN(c))
                                     !.step = IF SpecStep = "requested" THEN c.h * Sr(c) ELSE (npadv - m.nov) * c.tden,
                                     !.fd = [k \in 1..ImplBins(c, SrcN(c)) |-> (k - 1) * npadv],
                                     !.fstep = m.np]
-              /\ pc' = "done" /\ Stay
+              /\ pc' = "reobs" /\ Stay
+
+(* ---- after the call(s): look at the source array again ---- *)
+Reobserve == /\ pc = "reobs"
+             /\ m' = [m EXCEPT !.sobs = <<SrcN(c), m.sstep[1], m.sstep[2]>>]
+             /\ pc' = "done" /\ Stay
 
 Next == Rec \/ ClipArith \/ SeekFail \/ Seek \/ Read \/ AxisEmpty \/ Axis
-        \/ ResArith \/ ResRaise \/ ResAxis \/ SpecArith \/ SpecRaise \/ SpecFrames
+        \/ Pre \/ ResArith \/ ResRaise \/ ResAxis \/ SpecArith \/ SpecRaise \/ SpecFrames \/ Reobserve
 Spec == Init /\ [][Next]_vars /\ WF_vars(Next)
 
 Export == pc \in {"done", "raised"} => PrintT(<<"CASE", ToJson(c)>>)
@@ -140,6 +167,8 @@ Q_SpecSrcs == {<<8, 1, 1, 32, 1, 12, 0, 0>>, <<8, 1, 1, 32, 2, 16, 10, 50>>, <<8
                <<10, 1, 1, 40, 1, 12, 4, 44>>, <<22050, 1, 1, 88200, 1, 12, 0, 0>>}
 Q_ResSrcs  == {<<8, 1, 1, 32, 1, 12, 0, 0>>, <<8, 1, 1, 32, 2, 16, 10, 50>>, <<8, 2, 1, 64, 1, 7, 0, 0>>, <<10, 1, 1, 40, 1, 9, 0, 0>>,
                <<44100, 1, 1, 176400, 1, 12, 0, 0>>}
+Q_Pres        == {3, 12, 22050}
+Q_PreSpecSrcs == {<<8, 1, 1, 32, 2, 16, 10, 50>>, <<22050, 1, 1, 88200, 1, 12, 0, 0>>}
 Q_Targets  == {1, 2, 3, 4, 5, 6, 7, 8, 9, 10, 12, 16, 20, 22050, 44100, 48000}
 
 \* thorough tier
@@ -153,6 +182,8 @@ T_SpecSrcs == {<<8, 1, 1, 32, 1, 20, 0, 0>>, <<8, 1, 1, 32, 2, 24, 10, 70>>, <<8
 T_ResSrcs  == {<<8, 1, 1, 32, 1, 12, 0, 0>>, <<8, 1, 1, 32, 2, 16, 10, 50>>, <<8, 2, 1, 64, 1, 7, 0, 0>>, <<16, 1, 2, 32, 1, 11, 0, 0>>,
                <<10, 1, 1, 40, 1, 9, 0, 0>>, <<10, 1, 1, 40, 2, 12, 6, 46>>, <<44100, 1, 1, 176400, 1, 12, 0, 0>>,
                <<22050, 1, 1, 88200, 1, 30, 8, 100>>, <<8000, 1, 1, 256, 1, 130, 0, 0>>, <<8, 10, 1, 320, 1, 9, 0, 0>>}
+T_Pres        == {3, 5, 12, 16, 22050, 48000}
+T_PreSpecSrcs == {<<8, 1, 1, 32, 2, 24, 10, 70>>, <<16, 1, 2, 32, 1, 12, 5, 41>>, <<22050, 1, 1, 88200, 1, 20, 0, 0>>}
 T_Targets  == (1..24) \cup {30, 32, 40, 64, 80, 100, 4000, 8000, 11025, 16000, 22050, 32000, 44100, 48000, 96000}
 
 (* ---- Impl => Req ---- *)
@@ -160,6 +191,11 @@ ImplClipRefinesReq == (pc = "done" /\ c.kind = "clip") => ClipReqI(c, m.len, m.t
 ImplProduces       == pc = "raised" => ~MustProduceN(c, TRUE, SrcN(c))
 ImplTimeAxis       == pc = "done" => AxisReqI(m.d, m.step)
 ImplFreqAxis       == (pc = "done" /\ c.kind = "spec") => AxisReqI(m.fd, m.fstep)
+\* an array that told the truth when it was produced still does after it has been used as a source:
+\* its coordinates are the sample instants, so the advertised step p/q samples must keep every i within one step of i*p/q
+ImplSourceTruthful == c.kind \in {"resamp", "spec"} =>
+                         /\ AxisWithinRatI(SrcN(c), m.sstep[1], m.sstep[2])
+                         /\ pc = "done" => m.sobs[1] = SrcN(c) /\ AxisWithinRatI(m.sobs[1], m.sobs[2], m.sobs[3])
 ImplStartsAtSource == pc = "done" => m.t0 = (IF c.kind = "rec" THEN 0 ELSE IF c.kind = "clip" THEN OffNum(c) \div c.tden ELSE SrcOff(c))
 \* resample: the drift is bounded by one advertised step whatever the rates (the quantity TLC checks in ImplTimeAxis)
 ResampleDriftBounded == (pc = "done" /\ c.kind = "resamp") =>
